@@ -680,5 +680,8 @@ class ExprMixin:
             raise Unsupported('symbolic repetition of non-numeric element')
         xv = vlit(x) if kind == 'val' else zint(x)
         ln = zint(n)
-        st.heap[oid] = ArrObj(kind, arr=z3.K(IntS, xv), length=z3.If(ln < 0, 0, ln) if not is_cint(n) else max(0, n))
+        arr = fresh('rep', z3.ArraySort(IntS, kind_sort(kind)))
+        qi = z3.Const('rp_i!%d' % self.qcount(), IntS)
+        st.assume(z3.ForAll([qi], z3.Select(arr, qi) == xv, patterns=[z3.Select(arr, qi)]))
+        st.heap[oid] = ArrObj(kind, arr=arr, length=z3.If(ln < 0, 0, ln) if not is_cint(n) else max(0, n))
         return Ref(oid)
